@@ -80,9 +80,10 @@ pub fn variants_sp() -> Vec<Variant> {
 }
 pub fn variants_kp() -> Vec<Variant> {
     let mut v = vec![];
-    for dom in [Dom::Off, Dom::Coord] { for rub in [Rub::None, Rub::Exact, Rub::Slack] { for rank in [Rank::Asc, Rank::Desc, Rank::Equal] {
-        v.push(Variant { rub, dom, rank, revperm: false, flat: false, bonus: false, la: false });
-    } } }
+    // `bonus` selects the merge operator of the knapsack model (max capacity / one above it, see family.rs)
+    for bonus in [false, true] { for dom in [Dom::Off, Dom::Coord] { for rub in [Rub::None, Rub::Exact, Rub::Slack] { for rank in [Rank::Asc, Rank::Desc, Rank::Equal] {
+        v.push(Variant { rub, dom, rank, revperm: false, flat: false, bonus, la: false });
+    } } } }
     v
 }
 pub fn variants_irr() -> Vec<Variant> {
